@@ -105,10 +105,11 @@ def main():
             gaps = ["exploitability", "l1_norm", "linf_norm"] + (["l2_norm"] if a.what == "search" else [])
             gap = gaps[i % len(gaps)]
             gapf = GAP_FUNCTIONS[gap]
+            tiny = 2.0 ** -30 if (a.what in ("search", "best") and rng.random() < 0.35) else 1.0    # games of very small magnitude (still exact)
             if a.what == "search":
-                v = random_game(n, rng, cls)
+                v = [x * tiny for x in random_game(n, rng, cls)]
                 scale = scale_of(v)
-                M = max(1.0, max(abs(x) for x in v))
+                M = max(abs(x) for x in v) or 1.0
                 extra = [c for c in expl if rng.random() < (0.25 if n >= 4 else 0.15)]
                 k0 = minimal + extra
                 k = rng.choice([0, 1, 2, 3]) if n >= 4 else rng.choice([0, 1, 2, 3, None])
@@ -153,9 +154,9 @@ def main():
                     traces.append(t)
             else:
                 reps = rng.randint(1, 3)
-                games_f = [random_game(n, rng, cls) for _ in range(reps)]
+                games_f = [[x * tiny for x in random_game(n, rng, cls)] for _ in range(reps)]
                 scale = scale_of([x for g in games_f for x in g])
-                M = max(1.0, max(abs(x) for g in games_f for x in g))
+                M = max(abs(x) for g in games_f for x in g) or 1.0
                 max_steps = rng.randint(0, 3) if n == 3 else rng.randint(1, 2)
                 # the generator is called twice by the environment's constructor, then once per sampled game
                 counting = Counting([full_game(n, g) for g in [games_f[0], games_f[0]] + games_f])
